@@ -1,7 +1,7 @@
 """C01 — end-to-end at-least-once through Router pipelines under faults."""
 from . import common as C
 
-HEADER = 'From WM Require Import Base.Prelude Message.Model Handler.RouterHandle Pipeline.Model Pipeline.ImmModel Corr.C01.\n'
+HEADER = 'From WM Require Import Base.Prelude Message.Model Handler.RouterHandle Pipeline.Model Pipeline.ImmModel Pipeline.CtxModel Corr.C01.\n'
 ST = ['Unsettled', 'Acked', 'Nacked']
 FK = ['none', 'handler error', 'handler panic', 'publish error after j', 'publish panic after j']
 
@@ -56,8 +56,14 @@ def case_term(c):
     fans = C.coq_list([C.coq_list([str(x) for x in row]) for row in c['fans']])
     scr = C.coq_list([C.coq_list([fault_term(f) for f in row]) for row in c['script']])
     srcs = C.coq_list([cm(dict(lin=l, path=[])) for l in c['srcs']])
-    return '(C01 %d %s %s %s %s %s %s)' % (c['k'], fans, scr, srcs, C.coq_list([delivery_term(d) for d in c['log']]),
-                                           C.coq_list([cm(m) for m in c['sink']]), C.coq_bool(c['quiet']))
+    ctx = [[] for _ in range(c['k'])]
+    for d in sorted(c['log'], key=lambda d: d['call']):
+        row = ctx[d['stage']]
+        while len(row) < d['call']: row.append(True)
+        row.append(bool(d.get('ctx_live', True)))
+    ctxt = C.coq_list([C.coq_list([C.coq_bool(b) for b in row]) for row in ctx])
+    return '(C01 %d %s %s %s %s %s %s %s)' % (c['k'], fans, scr, srcs, C.coq_list([delivery_term(d) for d in c['log']]),
+                                              C.coq_list([cm(m) for m in c['sink']]), C.coq_bool(c['quiet']), ctxt)
 
 
 def config(c):
@@ -74,7 +80,7 @@ def describe(c, full=False):
              deliveries=len(c['log']))
     log = c['log'] if full else c['log'][:12]
     d['log'] = [dict(stage=x['stage'], call=x['call'], msg=(x['msg']['lin'], x['msg']['path']), fault=[FK[x['fault']['kind']], x['fault']['j']],
-                     events=x['events'], accepted_by_next_topic=[(m['lin'], m['path']) for m in x['fwd']], final=ST[x['final']]) for x in log]
+                     context_live_at_entry=x.get('ctx_live', True), events=x['events'], accepted_by_next_topic=[(m['lin'], m['path']) for m in x['fwd']], final=ST[x['final']]) for x in log]
     return d
 
 
@@ -129,7 +135,7 @@ def evaluate(pid, tag, data, res):
         r = C.coq_eval(pid, 'cases_%s_%d' % (tag, part), HEADER + 'Definition cases : list c01_case := %s.\n' % C.coq_list([case_term(c) for c in chunk]),
                        [('R_mis', 'c01_mismatches cases'), ('R_log', 'c01_log_violations cases'),
                         ('R_inv', 'c01_invented_violations cases'), ('R_lost', 'c01_lost_violations cases'),
-                        ('R_red', 'c01_redelivery_violations cases'), ('R_imm', 'c01_immediate_violations cases')])
+                        ('R_red', 'c01_redelivery_violations cases'), ('R_imm', 'c01_immediate_violations cases'), ('R_ctx', 'c01_dead_ctx_violations cases')])
         vio = set()
         for i in r['R_log']:
             vio.add(i)
@@ -139,6 +145,9 @@ def evaluate(pid, tag, data, res):
         for i in r['R_inv']:
             vio.add(i)
             res.violations.append(dict(signature='C01/invented', what='a message arrived at the final topic that does not descend from a successfully published source message (lineage/path not derivable)', case=describe(chunk[i], True)))
+        for i in r['R_ctx']:
+            vio.add(i)
+            res.violations.append(dict(signature='C01/dead-delivery-context', what='a copy was delivered with an already-done context (GoChannel must hand out every copy, redeliveries included, with a live context); the context-aware handler fails on it, so the fault never stops and the message does not move on', case=describe(chunk[i], True)))
         for i in r['R_imm']:
             vio.add(i)
             res.violations.append(dict(signature='C01/redelivery-not-immediate', what='after a Nack another message was delivered to the stage before the Nacked one was redelivered (the Sender must keep the sending lock: one in flight)', case=describe(chunk[i], True)))
